@@ -795,6 +795,11 @@ class Emitter:
             msg = s.string_of(args[0]); fn = s.string_of(args[1])
             w('  __CPROVER_assert(0, "libassert %s:%s: %s");' % (fn.split('/')[-1], s.val(args[2]).rstrip('U'), msg.replace('"', "'").replace('\\', '')))
             w('  __CPROVER_assume(0);'); done = True
+        elif name == '_ZSt21__glibcxx_assert_failPKciS0_S0_':
+            # libstdc++ container / iterator precondition (-D_GLIBCXX_ASSERTIONS): std::__glibcxx_assert_fail(file, line, function, condition)
+            fn = s.string_of(args[0]); cond = s.string_of(args[3])
+            w('  __CPROVER_assert(0, "libstdc++ assertion %s:%s: %s");' % (fn.split('/')[-1], s.val(args[1]).rstrip('U'), cond.replace('"', "'").replace('\\', '')))
+            w('  __CPROVER_assume(0);'); done = True
         if not done and name in EXT_MODELS and name in s.m.funcs and s.m.funcs[name].vararg:
             rtf, k = EXT_MODELS[name]
             al = []
@@ -1059,7 +1064,7 @@ class Emitter:
         # prototypes for all functions (decl + def)
         for f in m.funcs.values():
             if f.name.startswith('llvm.'): continue
-            if f.name in ('__CPROVER_assert', '__CPROVER_assume', '__assert_fail'): continue
+            if f.name in ('__CPROVER_assert', '__CPROVER_assume', '__assert_fail', '_ZSt21__glibcxx_assert_failPKciS0_S0_'): continue
             if KEEP_NAMES.match(f.name) and f.is_decl: continue
             protos.append(s.fdecl(f) + ';')
         # globals
@@ -1240,7 +1245,7 @@ def emit_externals(e):
     out = []
     unmodelled = []
     for f in e.m.funcs.values():
-        if not f.is_decl or f.name.startswith('llvm.') or KEEP_NAMES.match(f.name) or f.name == '__assert_fail':
+        if not f.is_decl or f.name.startswith('llvm.') or KEEP_NAMES.match(f.name) or f.name in ('__assert_fail', '_ZSt21__glibcxx_assert_failPKciS0_S0_'):
             continue
         if f.name == '__gxx_personality_v0':
             continue
